@@ -366,30 +366,31 @@ theorem early_close_not_restored (ax : Option Axis) (l : List Nat) (c s : Ctx) (
 
 `evalS J m a e c` threads the dynamic context state (item, axis, position, size) through the evaluation
 of `e` exactly where the code shares one `XPathContext` between caller and callee (steps, the base and
-the right operand of `/` `//` `[`, leading `/` `//`, parentheses, `count`, `not`) and copies it where the
-code calls `copy(context)` (predicates, `|`, comparisons, `and`, `or`).  `J` = the (arbitrary) state left
-by `not(…)`, whose `boolean_value` abandons the operand's generator. -/
+the right operand of `/` `//` `[`, leading `/` `//`, parentheses, `count`) and copies it where the
+code calls `copy(context)` (predicates, `|`, comparisons, `and`, `or`, `not`). -/
 
 /-- **eval_state_values.**  For every typed expression, evaluated from a context with `axis = None`, the
 state-threading evaluator computes the value of the pure evaluator `eval` (the one the specification
-theorems are about) — whatever state abandoned generators leave behind (`J`): no construct of the
-fragment lets a callee's left-over state influence a later evaluation. -/
-theorem eval_state_values (J : Expr → SCtx → SCtx) (m : Mode) (a : Arr) (hw : wfArr m a = true)
+theorems are about): no construct of the fragment lets a callee's left-over state influence a later
+evaluation. -/
+theorem eval_state_values (m : Mode) (a : Arr) (hw : wfArr m a = true)
     (e : Expr) (t : Ty) (c : SCtx) (ht : ty e = some t) (hc : c.axis = none) :
-    (evalS J m a e c).1 = eval m a e c.focus :=
-  (evalS_spec J (fun n hv => by
+    (evalS m a e c).1 = eval m a e c.focus :=
+  (evalS_spec (fun n hv => by
     obtain ⟨_, rfl, h0, _⟩ := (wf_of_wfArr hw).v_is_doc hv; exact h0) e t c ht hc).1
 
-/-- **eval_leaves_context.**  Evaluating any path-valued (or `count`) expression of the fragment to
-exhaustion leaves the caller's context exactly as it was — item, axis, position and size — unless the
-expression ends in a namespace step on the caller's own context (`nsTail`), in which case only `item`
-is moved (next theorem).  `iterator_restores` composed through `select_with_focus`, the predicate
-loop, the path operators and the leading `/` (`context.item = item  # give the focus back`). -/
-theorem eval_leaves_context (J : Expr → SCtx → SCtx) (m : Mode) (a : Arr) (hw : wfArr m a = true)
-    (e : Expr) (t : Ty) (c : SCtx) (ht : ty e = some t) (htb : t ≠ .bool) (hc : c.axis = none)
-    (hn : nsTail e = false) : (evalS J m a e c).2 = c :=
-  kept_eq ((evalS_spec J (fun n hv => by
-    obtain ⟨_, rfl, h0, _⟩ := (wf_of_wfArr hw).v_is_doc hv; exact h0) e t c ht hc).2 htb) hn
+/-- **eval_leaves_context.**  Evaluating any typed expression of the fragment — path-valued, numeric or
+boolean — to exhaustion leaves the caller's context exactly as it was (item, axis, position, size),
+unless the expression ends in a namespace step on the caller's own context (`nsTail`), in which case
+only `item` is moved (`namespace_tail_moves_item`).  `iterator_restores` composed through
+`select_with_focus`, the predicate loop, the path operators, the leading `/`
+(`context.item = item  # give the focus back`) and the `copy(context)` of `|`, comparisons, `and`, `or`
+and (since fix 1b26724) `not`. -/
+theorem eval_leaves_context (m : Mode) (a : Arr) (hw : wfArr m a = true)
+    (e : Expr) (t : Ty) (c : SCtx) (ht : ty e = some t) (hc : c.axis = none)
+    (hn : nsTail e = false) : (evalS m a e c).2 = c :=
+  kept_eq ((evalS_spec (fun n hv => by
+    obtain ⟨_, rfl, h0, _⟩ := (wf_of_wfArr hw).v_is_doc hv; exact h0) e t c ht hc).2) hn
 
 /-- `select_with_focus` of an `XPathAxis` token selects on the context as it is, the base one resets
 `context.axis` first; started with `axis = None` the two coincide (this is the only place where the
@@ -400,11 +401,11 @@ theorem swf_entry_axis_none (e : Expr) (c : SCtx) (hc : c.axis = none) : swfEntr
   · exact sctx_axis_none hc
 
 /-- also after a trailing namespace step: axis, position and size are the caller's -/
-theorem eval_keeps_axis_position_size (J : Expr → SCtx → SCtx) (m : Mode) (a : Arr) (hw : wfArr m a = true)
-    (e : Expr) (t : Ty) (c : SCtx) (ht : ty e = some t) (htb : t ≠ .bool) (hc : c.axis = none) :
-    (evalS J m a e c).2.axis = c.axis ∧ (evalS J m a e c).2.pos = c.pos ∧ (evalS J m a e c).2.size = c.size := by
-  have := (evalS_spec J (fun n hv => by
-    obtain ⟨_, rfl, h0, _⟩ := (wf_of_wfArr hw).v_is_doc hv; exact h0) e t c ht hc).2 htb
+theorem eval_keeps_axis_position_size (m : Mode) (a : Arr) (hw : wfArr m a = true)
+    (e : Expr) (t : Ty) (c : SCtx) (ht : ty e = some t) (hc : c.axis = none) :
+    (evalS m a e c).2.axis = c.axis ∧ (evalS m a e c).2.pos = c.pos ∧ (evalS m a e c).2.size = c.size := by
+  have := (evalS_spec (fun n hv => by
+    obtain ⟨_, rfl, h0, _⟩ := (wf_of_wfArr hw).v_is_doc hv; exact h0) e t c ht hc).2
   exact ⟨this.1, this.2.1, this.2.2.1⟩
 
 /-- **bool_operands_from_same_focus.**  The value of `l and r` / `l or r` is a function of the values
@@ -478,8 +479,8 @@ theorem shared_operand_copy_would_differ :
 /-- witness that `nsTail` is necessary in `eval_leaves_context`: `namespace::*` from `b` (index 2 of
 `w1`) leaves `context.item` on the namespace node 3; wrapped in a path (`./namespace::*`) it does not. -/
 theorem namespace_tail_moves_item :
-    (evalS (fun _ c => c) .frag w1 (.step .namespace .any false) ⟨2, none, 1, 1⟩).2 = ⟨3, none, 1, 1⟩ ∧
-    (evalS (fun _ c => c) .frag w1 (.slash .ctxItem (.step .namespace .any false)) ⟨2, none, 1, 1⟩).2
+    (evalS .frag w1 (.step .namespace .any false) ⟨2, none, 1, 1⟩).2 = ⟨3, none, 1, 1⟩ ∧
+    (evalS .frag w1 (.slash .ctxItem (.step .namespace .any false)) ⟨2, none, 1, 1⟩).2
       = ⟨2, none, 1, 1⟩ := by decide +kernel
 
 /-- witness: `iter_parent` from `c` (index 5 of `w1`) closed after its only yield leaves
